@@ -1239,6 +1239,10 @@ int Interpret::interpPipe() {
             }
         }
     }
+    if (not done and not f_exit and (par > 0 or inString or inQuotedSymbol)) {
+        // The input ended inside a command: report it instead of dropping the incomplete command silently
+        notify_formatted(true, "pipe reader: unexpected end of input");
+    }
     free(buf);
     return 0;
 }
